@@ -35,6 +35,9 @@ STRENGTHENED = {
     "C13-5": "C13 loop class: slow-apply fault (an Apply that blocks for 5.5-8 s and then completes), observation continued after convergence",
     "C14-3": "C14: 'aged_burst' class (replica connected through 15-22 s of silence, then 150-400 writes); found and fixed D18d on the way",
     "C14-4": "C14: replica-side transient apply failure (the n-th PutInternal/DeleteInternal of the replica engine fails once, inside a multi-entry catch-up message)",
+    "C19-5": "C19: stand-in replication manager with a generated topology; GetNodeInfo compared field by field (empty and nil replica lists included)",
+    "C20-5": "C20 assign sub-check: target directory with a longer stale MANIFEST.tmp left by an interrupted save",
+    "C20-6": "C20 engine sub-check: databases created by the engine through absolute / relative / ./relative / unclean paths and reopened through the same path",
     "C13-4": "C13: real Replica state machine with injected transient apply failures (error state -> recovery -> new stream)",
     "C15-4": "C15: primary with a pre-history (older log files in the directory) so that the ack path's retention pass has work to do",
 }
